@@ -97,7 +97,7 @@ def features(layout):
     if layout.idcase != "asis":
         f.append("identifier-case")
     if layout.split_every:
-        f.append("continuation" + ("+leading-&" if layout.lead_amp else ""))
+        f.append("continuation" + ("+leading-&" + ("(tight)" if layout.amp_tight else "") if layout.lead_amp else ("+column-1" if layout.cont_col1 else "")))
     if layout.join_every:
         f.append("semicolon")
     if layout.end_style != "full":
